@@ -203,8 +203,19 @@ def main():
     ap.add_argument('--jobs', type=int, default=int(os.environ.get('VERIF_JOBS', '0')) or None)
     ap.add_argument('--only', default=None, help='regex on group names (debugging)')
     a = ap.parse_args()
+    # scratch hygiene: work directories of check processes that no longer exist (killed runs, VERIF_KEEP debugging)
+    import glob
+    import shutil as _sh
+    for d_ in glob.glob(os.path.join(core.BUILD, 'run_*')):
+        try:
+            if not os.path.exists('/proc/%d' % int(d_.rsplit('_', 1)[1])):
+                _sh.rmtree(d_, ignore_errors=True)
+        except ValueError:
+            pass
     if a.pid == 'replay':
-        sys.exit(nreplay.replay_file(a.rest[0]))
+        rc_ = nreplay.replay_file(a.rest[0])
+        _sh.rmtree(core.RUNDIR, ignore_errors=True)
+        sys.exit(rc_)
     pid = a.pid
     tier = a.tier if a.tier in ('quick', 'thorough') else 'quick'
     seed = int(os.environ.get('VERIF_SEED', '0') or 0)
